@@ -220,4 +220,28 @@ CHECKS = {
                "correspondence + direct consistency checks over setter "
                "sequences",
  },
+ "C16": {
+  "text": "Theorems (all event lists, lags, windows): exchanging the two "
+          "sequences exchanges the two directed synchronisation strengths; "
+          "a common time shift changes nothing (any lag, any taumax); with an "
+          "unbounded window any positive rescaling of time changes nothing; "
+          "the double-count correction never removes more than the counted "
+          "coincidences (strengths are non-negative); every coincidence count "
+          "of the four ECA rates is at most its denominator (rates in [0,1] "
+          "when defined). The vectorised ES counting and the static ECA are "
+          "modelled on integer time stamps and compared with the "
+          "implementation inside Coq by exact integer counts. Matrix assembly "
+          "under the six symmetrisations, the three window types of the "
+          "instance method, exchange of variables, and value / quantile event "
+          "extraction: independent Python references only (partial); ES <= 1 "
+          "is checked, not proved.",
+  "design_ref": "DESIGN.md section 5, C16",
+  "note": "trusted: integer time stamps (float comparisons are exact on "
+          "them); counts recovered from the float outputs by multiplying with "
+          "the known denominators; int16 event indices (T > 32767) not "
+          "exercised",
+  "technique": "Coq proofs (double-sum swap, equivariance lemma, nia) + "
+               "vm_compute correspondence of integer counts + reference "
+               "implementations",
+ },
 }
